@@ -9,6 +9,9 @@
 (*   pieces  : [m0Units, m1Units (end slopes against the right-hand side at the     *)
 (*             piece's own end states, in units of eps max(1,|f|)), joins (the       *)
 (*             piece starts where the previous one ends: same time and state)]       *)
+(*   turned  : pieces of both orientations are stored (integrate() calls that turned round); a     *)
+(*             grid query is then "amb" when some piece containing the time does not have it as an   *)
+(*             end with the recorded state - the recorded state at that time is not unique            *)
 (*   mids    : [quot] mid-step error divided by the Hermite bound (rational        *)
 (*             problems only; exact arithmetic in the sensor)                       *)
 EXTENDS Integers, Sequences, FiniteSets, TLC, Json, IOUtils, Bounds
@@ -24,7 +27,7 @@ CheckCase(o) ==
             \* the pieces of a Richardson wrapper end at the sum of its sub-steps: a recorded time may lie a few rounding units beyond
             /\ (o.rich => o.queries[k].outUnits > UlpFew)}}
     \cup {V(o, "C06.RecordedStateReproduced", k) : k \in {k \in 1..Len(o.queries) :
-            o.queries[k].kind = "grid" /\ (IF o.rich THEN o.queries[k].tolUnits > DenseRichTolUnits ELSE ~o.queries[k].exact)}}
+            o.queries[k].kind = "grid" /\ ~(o.turned /\ o.queries[k].amb) /\ (IF o.rich THEN o.queries[k].tolUnits > DenseRichTolUnits ELSE ~o.queries[k].exact)}}
     \cup {V(o, "C06.ScalarAndArrayQueriesAgree", k) : k \in {k \in 1..Len(o.queries) : ~o.queries[k].vecAgree}}
     \cup {V(o, "C06.EndSlopesAreRhsAtRecordedStates", k) : k \in {k \in 1..Len(o.pieces) :
             IF o.rich THEN o.pieces[k].m0Tol > DenseRichTolUnits \/ o.pieces[k].m1Tol > DenseRichTolUnits
